@@ -449,7 +449,20 @@ func RenderFE(fe string, root *Node, logical Val) (*Rendered, error) {
 		r.SpecIn = flatSpecIn(root, vals, keyOf, false)
 		if fe == FEForm {
 			k := int(fnv32(r.Text))
-			req, _ := http.NewRequest(formMethods[k%len(formMethods)], "http://example.test/x", strings.NewReader(r.Text))
+			// "the form (body plus query, as net/http defines it)": some of the parameters travel in the URL
+			body, query := url.Values{}, url.Values{}
+			for key, vs := range vals {
+				if fnv32(key+"|"+r.Text)%3 == 0 {
+					query[key] = vs
+				} else {
+					body[key] = vs
+				}
+			}
+			target := "http://example.test/x"
+			if len(query) > 0 {
+				target += "?" + query.Encode()
+			}
+			req, _ := http.NewRequest(formMethods[k%len(formMethods)], target, strings.NewReader(body.Encode()))
 			req.Header.Set("Content-Type", formCTypes[(k/7)%len(formCTypes)])
 			r.Data, r.Req = zhttp.Request(req), req
 		} else {
